@@ -1,5 +1,6 @@
 import TvCore.Model.Ops
 import TvCore.Model.Step
+import TvCore.Model.StreamId
 import TvCore.Props.C04Socks
 /-
   Replays one case of a tv-sim trace on the World model (correspondence K).
@@ -76,8 +77,12 @@ def parseHOp (t : List String) : HOp :=
   | ["lookup", name] => .lookup name
   | _ => .unknown
 
-/-- Host-level op → model: the World is `applyStep w (.host h op)`. -/
-def hostOp (w : World) (h : Nat) (t : List String) : World × String := applyHOp w h (parseHOp t)
+/-- the transition system the variant runs: with `cfg.fixStreamId` the repaired one (`Model/StreamId.lean`). -/
+def stepD (w : World) (st : Step) : World := if w.cfg.fixStreamId then applyStepI w st else applyStep w st
+def hopD (w : World) (h : Nat) (op : HOp) : World × String := if w.cfg.fixStreamId then applyHOpI w h op else applyHOp w h op
+
+/-- Host-level op → model: the World is `stepD w (.host h op)`. -/
+def hostOp (w : World) (h : Nat) (t : List String) : World × String := hopD w h (parseHOp t)
 
 def norm (s : String) : String := " ".intercalate ((s.splitOn " ").filter (· != ""))
 
@@ -112,7 +117,7 @@ def netCtlOfSet (name : String) : Option NetCtl :=
   else none
 
 /-- Controller op → model.  Every World is obtained from the previous one by `applyStep`s
-    (`dnsLookup` is called directly where its result is needed: `applyStep w (.dns n) = (w.dnsLookup n).2`). -/
+    (`dnsLookup` is called directly where its result is needed: `stepD w (.dns n) = (w.dnsLookup n).2`). -/
 def ctlOp (s : RState) (t : List String) : RState :=
   let w := s.w
   match t with
@@ -123,7 +128,7 @@ def ctlOp (s : RState) (t : List String) : RState :=
       | none => (w, false)
       | some name => let (ip', w) := w.dnsLookup name; (w, ip' != ip)
     let s := if bad then { s with bad := some (0, "registered host address differs from the DNS model") } else s
-    { s with w := applyStep w (.register ip (kvGet rest "kind" == some "client")), expectObs := some "ok" }
+    { s with w := stepD w (.register ip (kvGet rest "kind" == some "client")), expectObs := some "ok" }
   | ["dns", name] => let (ip, w) := w.dnsLookup name; { s with w := w, expectObs := some s!"ok {ip}" }
   | ["dnsip", ip] => { s with expectObs := some s!"ok {ip}" }
   | ["dnsbulk", pfx, n] =>
@@ -138,27 +143,27 @@ def ctlOp (s : RState) (t : List String) : RState :=
     let ips := (w.dns.names.filter (fun x => x.1.startsWith p)).map (fun x => toString (ipOfCounter w.v6 x.2))
     { s with expectObs := some s!"ok {if ips.isEmpty then "-" else ",".intercalate ips}" }
   | "q" :: _ => s
-  | ["step"] => { s with w := applyStep w .stepBegin, inStep := true, expectObs := none }
-  | ["partition", a, b] => { s with w := applyStep w (.link .partition (hostOf a) (hostOf b)), expectObs := some "ok" }
-  | ["partition1", a, b] => { s with w := applyStep w (.link .partitionOneway (hostOf a) (hostOf b)), expectObs := some "ok" }
-  | ["repair", a, b] => { s with w := applyStep w (.link .repair (hostOf a) (hostOf b)), expectObs := some "ok" }
-  | ["repair1", a, b] => { s with w := applyStep w (.link .repairOneway (hostOf a) (hostOf b)), expectObs := some "ok" }
-  | ["hold", a, b] => { s with w := applyStep w (.link .hold (hostOf a) (hostOf b)), expectObs := some "ok" }
-  | ["release", a, b] => { s with w := applyStep w (.link .release (hostOf a) (hostOf b)), expectObs := some "ok" }
-  | ["crash", a] => { s with w := applyStep w (.crash (hostOf a)), expectObs := some "ok" }
-  | ["bounce", a] => { s with w := applyStep w (.bounce (hostOf a)), expectObs := some "ok" }
+  | ["step"] => { s with w := stepD w .stepBegin, inStep := true, expectObs := none }
+  | ["partition", a, b] => { s with w := stepD w (.link .partition (hostOf a) (hostOf b)), expectObs := some "ok" }
+  | ["partition1", a, b] => { s with w := stepD w (.link .partitionOneway (hostOf a) (hostOf b)), expectObs := some "ok" }
+  | ["repair", a, b] => { s with w := stepD w (.link .repair (hostOf a) (hostOf b)), expectObs := some "ok" }
+  | ["repair1", a, b] => { s with w := stepD w (.link .repairOneway (hostOf a) (hostOf b)), expectObs := some "ok" }
+  | ["hold", a, b] => { s with w := stepD w (.link .hold (hostOf a) (hostOf b)), expectObs := some "ok" }
+  | ["release", a, b] => { s with w := stepD w (.link .release (hostOf a) (hostOf b)), expectObs := some "ok" }
+  | ["crash", a] => { s with w := stepD w (.crash (hostOf a)), expectObs := some "ok" }
+  | ["bounce", a] => { s with w := stepD w (.bounce (hostOf a)), expectObs := some "ok" }
   | ["crash_set", hs] =>
     -- `Sim::crash(regex)`: the selected hosts in registration order
     let xs := ((hs.splitOn ",").map hostOf).mergeSort (· ≤ ·)
-    { s with w := xs.foldl (fun w x => applyStep w (.crash x)) w, expectObs := some "ok" }
+    { s with w := xs.foldl (fun w x => stepD w (.crash x)) w, expectObs := some "ok" }
   | ["bounce_set", hs] =>
     let xs := ((hs.splitOn ",").map hostOf).mergeSort (· ≤ ·)
-    { s with w := xs.foldl (fun w x => applyStep w (.bounce x)) w, expectObs := some "ok" }
+    { s with w := xs.foldl (fun w x => stepD w (.bounce x)) w, expectObs := some "ok" }
   | ["links"] => { s with expectObs := some s!"links {w.linksView}" }
   | ["deliverall", a, b] =>
-    { s with w := applyStep w (.deliverAll (hostOf a) (hostOf b)), expectObs := some "ok" }
+    { s with w := stepD w (.deliverAll (hostOf a) (hostOf b)), expectObs := some "ok" }
   | ["deliver", a, b, i] =>
-    { s with w := applyStep w (.deliver (hostOf a) (hostOf b) (i.toNat?.getD 0)), expectObs := none }
+    { s with w := stepD w (.deliver (hostOf a) (hostOf b) (i.toNat?.getD 0)), expectObs := none }
   | ["mark", _] => { s with expectObs := some "ok" }
   | ["xprobe_bw", _, _, _] =>
     -- a probe on a private Sim inside the harness (blocked writer, real task and waker): no effect on this world
@@ -166,13 +171,13 @@ def ctlOp (s : RState) (t : List String) : RState :=
   | ["reglate"] =>
     let i := w.hosts.length
     let (ip, w) := w.dnsLookup s!"n{i}"
-    { s with w := applyStep w (.register ip false), expectObs := some s!"ok {i} ip={ip}" }
+    { s with w := stepD w (.register ip false), expectObs := some s!"ok {i} ip={ip}" }
   | [name, as, bs] =>
     -- host-set forms (`Sim::partition(regex, regex)` …): every ordered pair of distinct hosts, first set outermost
     let xs := (as.splitOn ",").map hostOf
     let ys := (bs.splitOn ",").map hostOf
     match netCtlOfSet name with
-    | some op => { s with w := applyStep w (.linkPairs op xs ys), expectObs := some "ok" }
+    | some op => { s with w := stepD w (.linkPairs op xs ys), expectObs := some "ok" }
     | none => { s with expectObs := none }
   | ["isrunning", a] => { s with expectObs := some s!"ok {(w.host! (hostOf a)).running}" }
   | ["setcurve", _] => { s with expectObs := some "ok" }
@@ -187,7 +192,7 @@ def line (s : RState) (ln : Nat) (l : String) : RState :=
   | "TURN" :: i :: _ =>
     let h := i.toNat?.getD 0
     let s := if s.expectEv.isEmpty then s else s.fail ln s!"expected {s.expectEv.head!} before TURN"
-    -- the World is `applyStep s.w (.turn h)`
+    -- the World is `stepD s.w (.turn h)`
     let (envs, w) := turnStep s.w h
     { s with w := w, expectEv := envs.map evLine }
   | "EV" :: "delivered" :: _ =>
@@ -203,7 +208,7 @@ def line (s : RState) (ln : Nat) (l : String) : RState :=
         match pend.findIdx? (fun e => evLine e == l) with
         | none => s.fail ln "unexpected delivery"
         | some i =>
-          -- the World is `applyStep s.w (.loDeliver h i)`
+          -- the World is `stepD s.w (.loDeliver h i)`
           match loStep s.w h i with
           | (w, some r) => { s with w := w, expectEv := [evLine r] }
           | (w, none) => { s with w := w }
@@ -214,7 +219,7 @@ def line (s : RState) (ln : Nat) (l : String) : RState :=
     ctlOp s rest
   | "OP" :: h :: rest =>
     let s := if s.expectEv.isEmpty then s else s.fail ln s!"expected {s.expectEv.head!}"
-    -- the World is `applyStep s.w (.host h (parseHOp rest))`
+    -- the World is `stepD s.w (.host h (parseHOp rest))`
     let (w, obs) := hostOp s.w (hostOf h) rest
     let obs := match w.panicked with | some _ => "panic" | none => obs
     { s with w := w, expectObs := some obs }
@@ -224,7 +229,7 @@ def line (s : RState) (ln : Nat) (l : String) : RState :=
       let s := if s.expectEv.isEmpty then s else s.fail ln s!"expected {s.expectEv.head!}"
       let want := s!"step finished=true order={runningOrder s.w}"
       let s := if s.w.panicked.isSome then s else if got == want then s else s.fail ln s!"want {want}"
-      { s with w := applyStep s.w .stepEnd, inStep := false, expectObs := none, stepNo := s.stepNo + 1 }
+      { s with w := stepD s.w .stepEnd, inStep := false, expectObs := none, stepNo := s.stepNo + 1 }
     else
       let s := match s.expectObs with
         | some want => if want == "?" || norm want == got then s else s.fail ln s!"want {want}"
@@ -240,11 +245,12 @@ def ownedOk (w : World) : Bool :=
 /-- loopback messages still queued on running hosts. -/
 def loPending (w : World) : Nat := (w.hosts.map (fun hs => if hs.running then hs.lo.length else 0)).sum
 
-def parseCfg (toks : List String) (link : Cfg) (fixLeak fixFin fixWr : Bool) : WCfg :=
+def parseCfg (toks : List String) (link : Cfg) (fixLeak fixFin fixWr : Bool) (fixSid fixRst : Bool := false) : WCfg :=
   { tick := (if kvNat toks "tick_us" 0 > 0 then kvNat toks "tick_us" 0 * 1000 else kvNat toks "tick_ms" 1 * 1000000),
     tcpCap := kvNat toks "tcpcap" 64, udpCap := kvNat toks "udpcap" 64,
     ephLo := kvNat toks "ephlo" 49152, ephHi := kvNat toks "ephhi" 65535,
-    link := link, fixConnectLeak := fixLeak, fixFinRedrain := fixFin, fixWriterReset := fixWr }
+    link := link, fixConnectLeak := fixLeak, fixFinRedrain := fixFin, fixWriterReset := fixWr,
+    fixStreamId := fixSid, fixStaleRst := fixRst }
 
 def parseOracle (lines : List String) : List Ora :=
   lines.filterMap (fun l =>
@@ -255,11 +261,11 @@ def parseOracle (lines : List String) : List Ora :=
     | _ => none)
 
 /-- Replay a case under one model variant. Result: final state. -/
-def replay (lines : List String) (link : Cfg) (fixLeak fixFin : Bool) (fixWr : Bool := true) : RState :=
+def replay (lines : List String) (link : Cfg) (fixLeak fixFin : Bool) (fixWr : Bool := true) (fixSid fixRst : Bool := false) : RState :=
   let cfgToks := match lines.find? (·.startsWith "CFG ") with
     | some l => (l.splitOn " ").filter (· != "")
     | none => []
-  let w0 : World := { cfg := parseCfg cfgToks link fixLeak fixFin fixWr, oracle := parseOracle lines,
+  let w0 : World := { cfg := parseCfg cfgToks link fixLeak fixFin fixWr fixSid fixRst, oracle := parseOracle lines,
                       v6 := kvGet cfgToks "ipv" == some "6" }
   let (s, _) := lines.foldl (fun (acc : RState × Nat) l =>
     let s := line acc.1 acc.2 l
